@@ -7,6 +7,7 @@ import CogentModel.Proofs.FeatureView
 import CogentModel.Proofs.FeatureOnView
 import CogentModel.Model.FeatureProject
 import CogentModel.Proofs.FeatureProject
+import CogentModel.Proofs.FeatureHistory
 /-! # C04 — annotations keep denoting the same residues through every view
 
 The model mirrors `make_feature` as it is since commit 11fcfbb18 (spans that only touch a view
@@ -169,6 +170,147 @@ example :
     let fm : FMap.FM := ⟨[.span 4 5 true, .span 1 3 true], 5⟩
     FMap.SortedFwd A ∧ (∀ x ∈ fm.spans, x.idxIn A.parentLength) ∧
     (FMap.project A fm).toOption.map FMap.cover = some [some 7, some 4, some 1] := by
+  decide
+
+/-! ## Added by the audit (2026-09-29) -/
+
+-- a second witness for `feature_on_view` whose answer is NOT its own reverse complement (the one above, "CG", is):
+-- view `rc(parent[2:8])` of `ACGTTGCAAT`, minus-strand feature (1,4),(6,9): retained plus-strand residues
+-- `GT` + `CA`, read on the minus strand: `TGAC`; and the same feature on the plus strand of the same view: `GTCA`
+example :
+    let s : Seq := { parent := "ACGTTGCAAT".toList, v := { start := -3, stop := -9, step := -1, offset := 0, seqLen := 10 }, nucleic := true }
+    let comp : Char → Char := fun c => if c = 'G' then 'C' else if c = 'C' then 'G' else if c = 'A' then 'T' else if c = 'T' then 'A' else c
+    WF s ∧ UnitView s.v ∧
+    (match featureOnView s.v true [(1, 4), (6, 9)] with
+      | .ok f => getSlice comp s f == "TGAC".toList
+      | .error _ => false) = true ∧
+    (match featureOnView s.v false [(1, 4), (6, 9)] with
+      | .ok f => getSlice comp s f == "GTCA".toList
+      | .error _ => false) = true := by
+  decide
+
+/-- `feature_on_view` without the nucleic-acid hypothesis, for what a protein (or any other
+non-nucleic) sequence can have: a forward view and a plus-strand feature.  No complement is
+involved. -/
+theorem feature_on_forward_view_any_moltype (comp : Char → Char) (hcomp : ∀ x, comp (comp x) = x) (s : Seq)
+    (hw : WF s) (hu : UnitView s.v) (hf : 0 < s.v.step) (hl : 0 < len s.v) (spans : List (Int × Int))
+    (hsp : ∀ sp ∈ spans, 0 ≤ sp.1 ∧ sp.1 < sp.2) (hsorted : spans.Pairwise (fun a b => a.1 ≤ b.1)) :
+    ∃ f, featureOnView s.v false spans = .ok f ∧
+      getSlice comp s f =
+        (denote spans false (segStart s.v) (segStart s.v + len s.v)).1.map
+          (fun p => s.parent[(p - s.v.offset).toNat]!) := by
+  obtain ⟨f, h1, h2⟩ := getSlice_spec comp hcomp { s with nucleic := true } hw rfl hu hl false spans hsp hsorted
+  refine ⟨f, h1, ?_⟩
+  have hns : ¬ s.v.step < 0 := by omega
+  have e : getSlice comp s f = getSlice comp { s with nucleic := true } f := by
+    unfold getSlice SeqWrap.str SeqWrap.value
+    simp [hns]
+  rw [e, h2]
+  simp
+
+example :
+    let s : Seq := { parent := "MKVLAAGIW".toList, v := { start := 2, stop := 7, step := 1, offset := 0, seqLen := 9 }, nucleic := false }
+    WF s ∧ UnitView s.v ∧
+    (match featureOnView s.v false [(0, 3), (5, 9)] with
+      | .ok f => getSlice id s f == "VAG".toList
+      | .error _ => false) = true := by
+  decide
+
+/-- **unit_history_inv.**  Every history of slices with step `None`/`1`/`-1`, integer indexing and
+(on nucleic acids) `rc()` leads from a well-formed unit-stride `Sequence` to a well-formed
+unit-stride `Sequence`: the hypotheses `WF`/`UnitView` of the per-view theorems above hold after
+ANY such history (C01's `reachable_inv` gives `Inv`; that the stride stays 1 was not stated anywhere). -/
+theorem unit_history_inv (ops : List SeqWrap.SOp) (s s' : Seq) (hw : WF s) (hu : UnitView s.v)
+    (hops : ∀ op ∈ ops, op.unit s.nucleic) (h : SeqWrap.runOps s ops = .ok s') :
+    WF s' ∧ UnitView s'.v ∧ s'.nucleic = s.nucleic :=
+  SeqWrap.runOps_unit ops s s' hw hu hops h
+
+/-- **feature_after_history.**  The property for whole histories, on C01's `Sequence` wrapper: start
+from any well-formed unit-stride nucleic `Sequence` `s` (e.g. `ofString t true`, at any annotation
+offset), apply ANY history `ops` of unit-step slices / integer indexing / `rc()`; if the resulting
+view `s'` is not empty then for every feature (any number of spans, either strand)
+* the displayed string of `s'` is what the same history does to the plain string `str s`
+  (C01 `seq_chain_spec`),
+* `get_features` on `s'` builds the feature without an exception, and
+* `feature.get_slice()` is exactly the residues of the ORIGINAL parent string (read at the ORIGINAL
+  offset) at `denote f ∩ segment retained by s'`, in reading order, complemented iff the feature
+  is on the minus strand. -/
+theorem feature_after_history (comp : Char → Char) (hcomp : ∀ x, comp (comp x) = x) (s s' : Seq) (hw : WF s)
+    (hn : s.nucleic = true) (hu : UnitView s.v) (ops : List SeqWrap.SOp) (hops : ∀ op ∈ ops, op.unit s.nucleic)
+    (hrun : SeqWrap.runOps s ops = .ok s') (hl : 0 < len s'.v) (minus : Bool) (spans : List (Int × Int))
+    (hsp : ∀ sp ∈ spans, 0 ≤ sp.1 ∧ sp.1 < sp.2) (hsorted : spans.Pairwise (fun a b => a.1 ≤ b.1)) :
+    SeqWrap.specRun comp s.nucleic (SeqWrap.str comp s) ops = some (SeqWrap.str comp s') ∧
+    ∃ f, featureOnView s'.v minus spans = .ok f ∧
+      getSlice comp s' f =
+        (denote spans minus (segStart s'.v) (segStart s'.v + len s'.v)).1.map
+          (fun p => (if minus then comp else id) (s.parent[(p - s.v.offset).toNat]!)) := by
+  obtain ⟨hw', hu', hn'⟩ := SeqWrap.runOps_unit ops s s' hw hu hops hrun
+  obtain ⟨hp, ho⟩ := SeqWrap.runOps_parent ops s s' hw' hrun hl
+  have hspec := ((SeqWrap.runOps_spec comp hcomp ops s hw (fun op h => SeqWrap.SOp.unit_ok (hops op h))).1 s' hrun).1
+  obtain ⟨f, h1, h2⟩ := getSlice_spec comp hcomp s' hw' (by rw [hn', hn]) hu' hl minus spans hsp hsorted
+  exact ⟨hspec, f, h1, by rw [h2, hp, ho]⟩
+
+-- `s = ACGTTGCAAT` at annotation offset 5, history `[2:9]`, `rc()`, `[1:]`, `[:-1]`, `rc()`, `[0:4]`:
+-- the view retains absolute [8, 12) = `TTGC` of the 10 letters; minus-strand feature (6,9),(11,14) keeps
+-- position 8 and position 11: plus-strand `T`,`C`, read on the minus strand `GA`
+example :
+    let comp : Char → Char := fun c => if c = 'G' then 'C' else if c = 'C' then 'G' else if c = 'A' then 'T' else if c = 'T' then 'A' else c
+    let s : Seq := { parent := "ACGTTGCAAT".toList, v := { start := 0, stop := 10, step := 1, offset := 5, seqLen := 10 }, nucleic := true }
+    let ops : List SeqWrap.SOp := [.slice (some 2) (some 9) none, .rc, .slice (some 1) none none,
+      .slice none (some (-1)) (some 1), .rc, .slice (some 0) (some 4) none]
+    WF s ∧ UnitView s.v ∧ (∀ op ∈ ops, op.unit s.nucleic) ∧
+    (match SeqWrap.runOps s ops with
+      | .ok s' => decide (0 < len s'.v) && (SeqWrap.str comp s' == "TTGC".toList) &&
+          (match featureOnView s'.v true [(6, 9), (11, 14)] with
+            | .ok f => getSlice comp s' f == "GA".toList
+            | .error _ => false)
+      | .error _ => false) = true := by
+  decide
+
+/-- `get_features()` with no window (and equally `start=0`, `stop=len(self)`) queries the db with
+exactly the retained parent segment. -/
+theorem query_window_default (v : View) (h : UnitView v) (hl : 0 < len v) (hoff : 0 ≤ v.offset) :
+    queryWindow v none none = .ok (segStart v, segStart v + len v) := by
+  have e1 : orDefault (some 0) 0 = orDefault none 0 := by simp [orDefault]
+  have e2 : orDefault (some (len v)) (len v) = orDefault none (len v) := by simp [orDefault]
+  have e : queryWindow v none none = queryWindow v (some 0) (some (len v)) := by
+    simp only [queryWindow, e1, e2]
+  rw [e, queryWindow_exact v h 0 (len v) (by omega) hl (by omega) hoff]
+  split <;> simp
+
+example : queryWindow { start := -3, stop := -9, step := -1, offset := 5, seqLen := 10 } none none = .ok (7, 13) := by
+  decide
+
+/-- a window written with negative indices denotes the same absolute window as its non-negative spelling -/
+theorem query_window_negative (v : View) (a b : Int) (ha : 0 ≤ a) (hab : a < b) (hb : b < len v) :
+    queryWindow v (some (a - len v)) (some (b - len v)) = queryWindow v (some a) (some b) := by
+  have h1 : a - len v ≠ 0 := by omega
+  have h2 : b - len v ≠ 0 := by omega
+  have h3 : b ≠ 0 := by omega
+  have h4 : a - len v < 0 := by omega
+  have h5 : b - len v < 0 := by omega
+  have h6 : ¬ b < 0 := by omega
+  have h7 : ¬ a < 0 := by omega
+  have h8 : a - len v + len v = a := by omega
+  have h9 : b - len v + len v = b := by omega
+  have hA : (if a = 0 then (0 : Int) else a) = a := by split <;> omega
+  simp only [queryWindow, orDefault, hA, if_neg h1, if_neg h2, if_neg h3, if_pos h4, if_pos h5, if_neg h6,
+    if_neg h7, h8, h9]
+
+example : queryWindow { start := -3, stop := -9, step := -1, offset := 5, seqLen := 10 } (some (-5)) (some (-2)) =
+    queryWindow { start := -3, stop := -9, step := -1, offset := 5, seqLen := 10 } (some 1) (some 4) := by decide
+
+/-- `get_features(start=b, stop=a)` with the bounds the wrong way round is the window `[a, b)` -/
+theorem query_window_swapped (v : View) (a b : Int) (ha : 0 < a) (hab : a < b) :
+    queryWindow v (some b) (some a) = queryWindow v (some a) (some b) := by
+  have h1 : a ≠ 0 := by omega
+  have h2 : b ≠ 0 := by omega
+  have h3 : ¬ a < 0 := by omega
+  have h4 : ¬ b < 0 := by omega
+  have h5 : ¬ b < a := by omega
+  simp only [queryWindow, orDefault, if_neg h1, if_neg h2, if_neg h3, if_neg h4, if_neg h5, if_pos hab]
+
+example : queryWindow { start := -3, stop := -9, step := -1, offset := 5, seqLen := 10 } (some 4) (some 1) = .ok (9, 12) := by
   decide
 
 end CogentModel.C04
